@@ -12,7 +12,7 @@ EXTENDS Dispatcher, Json, IOUtils
 
 Tr == ndJsonDeserialize(IOEnv.TRACE)          \* line r+1 = [rank |-> r, ev |-> <<events>>]
 PFromTrace == Len(Tr)
-JFromTrace == Tr[1].J
+JobIdsFromTrace == {Tr[1].ids[i] : i \in 1..Len(Tr[1].ids)}      \* the job ids the scenario handed to the master (its input, not recorded)
 RFromTrace == Tr[1].R
 BossFromTrace == IF "boss" \in DOMAIN Tr[1] THEN Tr[1].boss ELSE TRUE
 Log(r) == Tr[r + 1].ev
